@@ -61,22 +61,26 @@ Definition spec_wf (s : dict) : bool :=
   | _, _ => false
   end.
 
+(* the concrete loader-side and YAML-side views (outside the section, so that the
+   soundness proof below is about abstract functions and the kernel never unfolds the
+   fuelled loader at Qed time) *)
+Definition loaded_rounding (Y : list (string * val)) (date : Z) (g : string) : res dict :=
+  do grp <- load_group Y env_fuel date g None;
+  match sget "rounding" grp with
+  | Some (VDict r) => Ok r
+  | Some _ => Err EType
+  | None => Ok []
+  end.
+
+Definition yaml_rounding_section (Y : list (string * val)) (g : string) : dict :=
+  match glookup g Y with
+  | Some (VDict raw) => match sget "rounding" raw with Some (VDict r) => r | _ => [] end
+  | _ => []
+  end.
+
 Section Chk.
-  Variable Y : list (string * val).
-
-  Definition loaded_rounding (date : Z) (g : string) : res dict :=
-    do grp <- load_group Y env_fuel date g None;
-    match sget "rounding" grp with
-    | Some (VDict r) => Ok r
-    | Some _ => Err EType
-    | None => Ok []
-    end.
-
-  Definition yaml_rounding_section (g : string) : dict :=
-    match glookup g Y with
-    | Some (VDict raw) => match sget "rounding" raw with Some (VDict r) => r | _ => [] end
-    | _ => []
-    end.
+  Variable loaded_rounding : Z -> string -> res dict.
+  Variable yaml_rounding_section : string -> dict.
 
   (* offenders for one (date, group): function names whose loaded spec differs from the
      YAML entry in force, or is ill formed *)
@@ -152,3 +156,15 @@ Section Chk.
     - destruct (dict_get (KStr name) loaded); [discriminate | reflexivity].
   Qed.
 End Chk.
+
+Definition c10_ok_for (Y : list (string * val)) :=
+  c10_ok (loaded_rounding Y) (yaml_rounding_section Y).
+Definition c10_diag_for (Y : list (string * val)) :=
+  c10_diag (loaded_rounding Y) (yaml_rounding_section Y).
+
+Theorem c10_ok_for_sound Y groups dates :
+  c10_ok_for Y groups dates = true ->
+  forall d g, In d dates -> In g groups ->
+    c10_holds_at (loaded_rounding Y) (yaml_rounding_section Y) d g.
+Proof. apply c10_ok_sound. Qed.
+
